@@ -21,6 +21,11 @@ Alphabet
  p19  19 positions, every vacancy set of size <= 2 (191) x two fixed type
       patterns (PATTERNS) over all four types.
  p37  37 positions, full core and every single vacancy (38) x the two patterns.
+ reactor  the same oracles on the Core the real `dassh.Reactor` constructs
+      (`Reactor._setup_core`: position ids, assembly objects, outer flat-to-flat
+      and gap flow handed to Core) for 7-position loadings with vacancies in
+      front of occupied positions, duct flat-to-flats listed inner- and outer-
+      first; thorough adds 19-position loadings.
 
 Conventions taken from the dassh documentation (not from the code paths under
 test): assembly ids follow the spiral of `map_assembly_xy` (ring r starts at
@@ -351,6 +356,66 @@ class Model(object):
 
 
 # ----------------------------------------------------------------------
+def _reactor_for(types, ftf=None):
+    """real Reactor for a 7/19-position loading of the template types (2 kg/s each, gap flow 5 %)"""
+    T = {'R3': S.design(3, oftf=OFTF), 'R2': S.design(2, oftf=OFTF),
+         'R2p': S.design(2, oftf=OFTF, pd=1.08, clearance='loose'),
+         'U': S.design(2, oftf=OFTF, lowfi={'model': 'simple'})}
+    if ftf == 'outer-first':      # the order of the two flat-to-flat values of a duct is free
+        for d in T.values():
+            f = list(d['duct_ftf'])
+            d['duct_ftf'] = [f[i + 1 - 2 * (i % 2)] for i in range(len(f))]
+    nring = 2 if len(types) == 7 else 3
+    assign, pw = [], {}
+    for t, (rg, p) in zip(types, S.core_positions(nring)):
+        if t is None:
+            continue
+        assign.append([t, rg, p, {'flowrate': 2.0}])
+        pw[str(S.asm_id(rg, p) + 1)] = {'rings': T[t]['num_rings'], 'nduct': 1, 'cells': [0.0, 0.4],
+                                        'q': 800.0, 'pins': 'uniform'}
+    used = sorted(set(t for t in types if t))
+    scn = {'setup': {}, 'core': {'inlet': 623.15, 'length': 0.4, 'pitch': PITCH, 'gap_model': 'flow',
+                                 'coolant': 'sodium_se2anl_425', 'bypass_fraction': 0.05},
+           'types': {t: T[t] for t in used}, 'assign': assign, 'power': {'asm': pw}}
+    with S.Built(scn) as b:
+        return b.reactor()
+
+
+def reactor_cases(tier):
+    """loadings built through the real Reactor: every occupancy pattern of the 7 positions in which the
+    highest ring holds an assembly (DASSH sizes the core from it) x a fixed type rotation, listed inner-
+    and outer-first; thorough adds a second type rotation and 19-position loadings with <= 2 vacancies"""
+    out = []
+    rots = [('R3', 'R2', 'U')] if tier == 'quick' else [('R3', 'R2', 'U'), ('U', 'R2p', 'R3', 'R2')]
+    for rot in rots:
+        for mask in range(2, 128):
+            if not (mask >> 1):
+                continue
+            names = [rot[(p + bin(mask).count('1')) % len(rot)] if (mask >> p) & 1 else '-' for p in range(7)]
+            if tier == 'quick' and bin(mask).count('1') not in (2, 3, 5, 6, 7):
+                continue
+            for ftf in (None, 'outer-first'):
+                if ftf and tier == 'quick' and mask % 3:
+                    continue
+                c = _case('reactor', names)
+                c['via'] = 'reactor'
+                c['ftf'] = ftf
+                out.append(c)
+    if tier != 'quick':
+        for pat in sorted(PATTERNS):
+            base = [PATTERNS[pat](p) for p in range(19)]
+            for nv in range(3):
+                for vac in itertools.combinations(range(0, 19, 3), nv):
+                    names = list(base)
+                    for p in vac:
+                        names[p] = '-'
+                    c = _case('reactor', names)
+                    c['via'] = 'reactor'
+                    c['ftf'] = None
+                    out.append(c)
+    return out
+
+
 def parse_layout(c):
     names = c['layout'].split()
     return [None if x == '-' else x for x in names]
@@ -373,12 +438,25 @@ def run_case(c):
     assert abs(sum(M.area) - M.total_area) <= 16 * M.n_ent * EPS * M.total_area
     asm_list = np.array([float(p) if types[p] is not None else np.nan
                          for p in range(npos)])
+    gap_flow = GAP_FLOW
     try:
-        core = Core(asm_list, PITCH, GAP_FLOW, cool, inlet_temperature=623.15,
-                    model='flow')
-        r['transitions'] += 1
-        core.load([tpl[t] for t in M.tname])
-        r['transitions'] += 1
+        if c.get('via') == 'reactor':
+            # the Core the real Reactor constructs for this loading (Reactor._setup_core: position ids,
+            # assembly objects, outer flat-to-flat and gap flow handed to Core)
+            rx = _reactor_for(types, c.get('ftf'))
+            core = rx.core
+            gap_flow = float(core.gap_flow_rate)
+            want = 0.05 / 0.95 * 2.0 * M.n_asm
+            if abs(gap_flow - want) > 1e-12 * want:
+                bad('gap-flow', 'gap flow rate of the Reactor\'s Core is not bypass_fraction x total flow',
+                    gap_flow, want, 1e-12 * want, site='reactor.py:_setup_core')
+            r['transitions'] += 2
+        else:
+            core = Core(asm_list, PITCH, GAP_FLOW, cool, inlet_temperature=623.15,
+                        model='flow')
+            r['transitions'] += 1
+            core.load([tpl[t] for t in M.tname])
+            r['transitions'] += 1
     except (Exception, SystemExit) as e:
         bad('load-exception', 'Core()/Core.load raised %s: %s'
             % (type(e).__name__, str(e)[:200]), site=site_of(e))
@@ -627,8 +705,8 @@ def run_case(c):
             bad('area-fraction', 'area fractions do not sum to one / are not area over total',
                 float(fr.sum()), 1.0, tol_a, site='core.py:load')
         mf = np.asarray(core._sc_mfr, dtype=float)
-        e = float(np.max(np.abs(mf / GAP_FLOW * tot / ar - 1.0)))
-        if e > tol_a or abs(float(mf.sum()) / GAP_FLOW - 1.0) > tol_a:
+        e = float(np.max(np.abs(mf / gap_flow * tot / ar - 1.0)))
+        if e > tol_a or abs(float(mf.sum()) / gap_flow - 1.0) > tol_a:
             bad('mfr-proportional', '_sc_mfr is not gap flow x area / total area', e, 0.0, tol_a,
                 site='core.py:load')
         ma = np.array([M.area[key_of[g]] for g in range(n_sc)])
@@ -738,6 +816,7 @@ def main(run):
     c37 = big_cases(37, 1)
     run.check_determinism(run_case, c7[len(c7) // 2])
     res7 = run.explore('p7', c7, run_case, budget_s=60, chunksize=64)
+    run.explore('reactor', reactor_cases(run.tier), run_case, budget_s=120, chunksize=4)
     run.explore('p19', c19, run_case, budget_s=120, chunksize=4)
     run.explore('p37', c37, run_case, budget_s=300, chunksize=1)
     # cross-case: total area identical for every type assignment of one subset
